@@ -34,7 +34,7 @@ def verify_contract(contract: Contract, tier="quick", seed=0, known_regions=None
     t0 = time.time()
     timeout = contract.timeout_ms or (10000 if tier == "quick" else 60000)
     known_regions = known_regions or {}
-    budget = getattr(contract, "budget_s", None) or (150 if tier == "quick" else 1500)
+    budget = getattr(contract, "budget_s", None) or (600 if tier == "quick" else 3000)  # several times the slowest contract on an idle machine (~80 s): load must not turn a proof into "undecided"
     res = {
         "contract": contract.cid,
         "prop": contract.prop,
